@@ -231,6 +231,38 @@ func ruleC18(c *Ctx) {
 			case w.Root.Kind == "global" || w.Root.Kind == "unknown":
 				// reported under C18.1
 			default:
+				// a write through another pointer parameter: owned by the receiver all the same when every call site
+				// in the module hands in memory of the caller's own receiver (or fresh memory), e.g. helper(&e.field)
+				if w.Root.Kind == "param" && fn.Object() != nil && !fn.Object().Exported() {
+					var idx int
+					fmt.Sscan(w.Root.Name, &idx)
+					sites, allOwned := 0, true
+					for _, caller := range a.Funcs() {
+						sum := a.Sums[caller]
+						if sum == nil {
+							continue
+						}
+						for ci, per := range sum.ArgRoots {
+							if ci.Common().StaticCallee() != fn || idx >= len(per) {
+								continue
+							}
+							sites++
+							callerIsMethod := caller.Signature.Recv() != nil
+							for _, r := range per[idx] {
+								if r.Kind == "fresh" || (callerIsMethod && r.Kind == "param" && r.Name == "0") {
+									continue
+								}
+								allOwned = false
+							}
+							if len(per[idx]) == 0 {
+								allOwned = false
+							}
+						}
+					}
+					if sites > 0 && allOwned {
+						continue
+					}
+				}
 				ok = false
 				R.Bad(name+"#writes:"+w.Root.String(), c.Pos(w.Ins), "writes only through the receiver or to fresh memory", "writes "+w.Root.String()+" via "+w.Via)
 			}
